@@ -4,7 +4,7 @@
 //! user actions, each `build` / `clean` transition runs the *real* ruler code under
 //! the serial schedule.  Breadth-first, level-synchronous, deduplicated on the
 //! canonical key of `world::canon_key`.
-use std::collections::{BTreeMap, BTreeSet, HashSet};
+use std::collections::{BTreeMap, BTreeSet, HashMap, HashSet};
 use std::sync::atomic::{AtomicBool, AtomicUsize, Ordering};
 use std::sync::{Arc, Mutex};
 use std::time::{Duration, Instant};
@@ -39,6 +39,9 @@ pub struct OpKinds
     pub rm_leaf: bool,
     /// replace an editable file by a version with an OLD modification time (restored from a backup)
     pub backdate: bool,
+    /// move a target aside (`mv t t.aside`) and, later, back (`mv t.aside t`): the file returns with
+    /// its old modification time over whatever stands at the path by then
+    pub aside: bool,
 }
 
 impl OpKinds
@@ -51,7 +54,7 @@ impl OpKinds
     pub fn all() -> OpKinds
     {
         OpKinds { edit: true, build: true, clean: true, tamper: true, delete: true, drop_cache: true, rm_ruler: true,
-            rm_history: true, rm_cache: true, rm_table: true, rules: true, rm_leaf: false, backdate: false }
+            rm_history: true, rm_cache: true, rm_table: true, rules: true, rm_leaf: false, backdate: false, aside: false }
     }
 }
 
@@ -91,6 +94,8 @@ pub enum Op
     /// the user (or a disk fault) damages the history file of the rule producing `target`
     CorruptHistory { target: String },
     CorruptTable,
+    SetAside { path: String },
+    MoveBack { path: String },
 }
 
 impl Op
@@ -114,6 +119,8 @@ impl Op
             Op::Backdate { path, val } => format!("restore_old({},{})", path, val),
             Op::CorruptHistory { target } => format!("damage_history_of({})", target),
             Op::CorruptTable => "damage(current_file_states)".to_string(),
+            Op::SetAside { path } => format!("mv({0},{0}.aside)", path),
+            Op::MoveBack { path } => format!("mv({0}.aside,{0})", path),
         }
     }
 }
@@ -166,11 +173,11 @@ pub fn order_signature(fs: &Fs) -> Vec<u8>
 {
     let table = decode_table(fs);
     let mut stamps: BTreeSet<u64> = BTreeSet::new();
-    for (_p, n) in fs.map.iter() { if let Node::File(f) = n { stamps.insert(f.mtime); } }
+    for (p, n) in fs.map.iter() { if crate::world::is_state_file(p) { continue; } if let Node::File(f) = n { stamps.insert(f.mtime); } }
     if let Some(Some(t)) = &table { for (_p, st) in t.iter() { stamps.insert(st.timestamp); } }
     let rank: BTreeMap<u64, u32> = stamps.iter().enumerate().map(|(i, x)| (*x, i as u32)).collect();
     let mut out = vec![];
-    for (p, n) in fs.map.iter() { if let Node::File(f) = n { out.extend_from_slice(p.as_bytes()); out.extend_from_slice(&rank[&f.mtime].to_le_bytes()); } }
+    for (p, n) in fs.map.iter() { if crate::world::is_state_file(p) { continue; } if let Node::File(f) = n { out.extend_from_slice(p.as_bytes()); out.extend_from_slice(&rank[&f.mtime].to_le_bytes()); } }
     if let Some(Some(t)) = &table { for (p, st) in t.iter() { out.extend_from_slice(p.as_bytes()); out.extend_from_slice(&rank[&st.timestamp].to_le_bytes()); } }
     out
 }
@@ -279,6 +286,15 @@ pub fn enabled_ops(sc: &Scenario, st: &State) -> Vec<Op>
         for (p, _) in &sc.edits
         {
             if st.fs.is_file(p) { out.push(Op::RmLeaf { path: p.clone() }); }
+        }
+    }
+    if k.aside
+    {
+        for t in &sc.tamper
+        {
+            let a = format!("{}.aside", t);
+            if st.fs.is_file(t) && !st.fs.is_file(&a) { out.push(Op::SetAside { path: t.clone() }); }
+            if st.fs.is_file(&a) { out.push(Op::MoveBack { path: t.clone() }); }
         }
     }
     if k.backdate
@@ -459,8 +475,45 @@ pub struct BuildObs<'a>
     pub ghost: &'a BTreeMap<GhostKey, Vec<Bytes>>,
 }
 
+/// A target claimed by two rules (a rule given twice included) makes the rule set invalid: ruler must
+/// refuse it and leave the workspace alone.
+pub fn repeated_target(rules: &RuleSet) -> Option<String>
+{
+    let mut seen = BTreeSet::new();
+    for r in rules { for t in r.sorted_targets() { if !seen.insert(t.clone()) { return Some(t); } } }
+    None
+}
+
+fn check_invalid_rules(opname: &str, t: &str, rr: &RunResult, or: &Oracles, stats: &mut Stats, out: &mut Vec<Finding>)
+{
+    stats.obligations += 1;
+    stats.nontrivial += 1;
+    if or.c04 && !matches!(&rr.verdict, Verdict::Other(s) if s.contains("TargetInMultipleRules"))
+    {
+        out.push(Finding { property: "C04", what: format!("{}: a rule set in which two rules claim one target is not refused", opname), detail: format!("target {}, verdict {:?}", t, rr.verdict) });
+    }
+    if or.c09
+    {
+        let m = outside_ruler_muts(&rr.log);
+        if !m.is_empty()
+        {
+            out.push(Finding { property: "C09", what: format!("{}: mutation outside .ruler although the rule set is refused (two rules claim one target)", opname), detail: m.join("; ") });
+        }
+    }
+    if (or.c02 || or.c04 || or.c09) && !rr.log.cmds.is_empty()
+    {
+        let p = if or.c09 { "C09" } else if or.c04 { "C04" } else { "C02" };
+        out.push(Finding { property: p, what: format!("{}: a command ran although the rule set is refused (two rules claim one target)", opname), detail: rr.log.cmds[0].script.clone() });
+    }
+}
+
 pub fn check_build(o: &BuildObs, or: &Oracles, stats: &mut Stats, out: &mut Vec<Finding>)
 {
+    if let Some(t) = repeated_target(o.rules)
+    {
+        check_invalid_rules("build", &t, o.rr, or, stats, out);
+        return;
+    }
     let g = Graph::new(o.rules);
     let exp = expected_verdict(o.rules, o.pre, o.goal);
     let post = &o.rr.fs;
@@ -640,7 +693,7 @@ pub fn check_build(o: &BuildObs, or: &Oracles, stats: &mut Stats, out: &mut Vec<
         }
     }
 
-    if or.c08 && !o.sc.nondeterministic
+    if or.c08
     {
         check_c08(o.sc, o.pre, post, &o.rr.log, "build", stats, out);
     }
@@ -828,6 +881,11 @@ pub struct CleanObs<'a>
 
 pub fn check_clean(o: &CleanObs, or: &Oracles, stats: &mut Stats, out: &mut Vec<Finding>)
 {
+    if let Some(t) = repeated_target(o.rules)
+    {
+        check_invalid_rules("clean", &t, o.rr, or, stats, out);
+        return;
+    }
     let g = Graph::new(o.rules);
     let post = &o.rr.fs;
     let scope = match g.scope(o.goal)
@@ -855,7 +913,7 @@ pub fn check_clean(o: &CleanObs, or: &Oracles, stats: &mut Stats, out: &mut Vec<
             out.push(Finding { property: "C07", what: "cache entry not named after its content (after clean)".into(), detail: b });
         }
     }
-    if or.c08 && !o.sc.nondeterministic
+    if or.c08
     {
         check_c08(o.sc, o.pre, post, &o.rr.log, "clean", stats, out);
     }
@@ -1012,6 +1070,22 @@ pub fn check_c17(o: &BuildObs, stats: &mut Stats, out: &mut Vec<Finding>)
         // the rule's history file is named by the rule ticket; find it via ruler's own identity function
         let ticket = crate::rule::Rule::new(rule.targets.clone(), rule.sources.clone(), rule.command_lines()).get_ticket().human_readable();
         let before = match pre_hist.get(&ticket) { Some(Some(m)) => m.get(&sources_ticket).cloned(), _ => None };
+        if before.is_none()
+        {
+            // a first successful execution on these sources: whatever else happens in this build, its
+            // outputs are remembered (builds of other rules are unaffected by a failure elsewhere)
+            let now: Option<Vec<[u8; 32]>> = rule.sorted_targets().iter().map(|t| post.read(t).map(|b| refsha::sha256(&b))).collect();
+            if let Some(now) = now
+            {
+                stats.obligations += 1;
+                let after = match post_hist.get(&ticket) { Some(Some(m)) => m.get(&sources_ticket).cloned(), _ => None };
+                if after.as_ref() != Some(&now)
+                {
+                    out.push(Finding { property: "C17", what: format!("the outputs of a rule that ran successfully were not recorded{}", if o.rr.verdict == Verdict::Ok { "" } else { " in a build that failed elsewhere" }),
+                        detail: format!("rule {:?}, verdict {:?}", rule.targets, o.rr.verdict) });
+                }
+            }
+        }
         if let Some(recorded) = before
         {
             stats.obligations += 1;
@@ -1165,6 +1239,8 @@ pub fn apply(ctx: &Ctx, st: &State, op: &Op, stats: &mut Stats, findings: &mut V
             let v = sc.edits.iter().find(|(p, _)| p == path).expect("edit path").1[*val].clone();
             each(&mut ns, &|fs| { fs.tick(); fs.put(path, v.clone(), 1 + *val as u64, None); fs.tick(); });
         },
+        Op::SetAside { path } => each(&mut ns, &|fs| { fs.tick(); let _ = fs.rename(path, &format!("{}.aside", path)); fs.tick(); }),
+        Op::MoveBack { path } => each(&mut ns, &|fs| { fs.tick(); let _ = fs.rename(&format!("{}.aside", path), path); fs.tick(); }),
         Op::Tamper { path } => each(&mut ns, &|fs| user_write(fs, path, bytes(TAMPER_CONTENT))),
         Op::Delete { path } => each(&mut ns, &|fs| user_remove(fs, path)),
         Op::DropCache { name } => each(&mut ns, &|fs| user_remove(fs, &format!("{}/{}", CACHE_DIR, name))),
@@ -1292,6 +1368,10 @@ pub struct HistResult
 
 struct Shared
 {
+    /// debug (RVF_ABSCHECK): coarse key -> (fine key, path) of the first state stored under it, and
+    /// pairs of paths whose states share the coarse key but differ in the fine key
+    abs_first: Mutex<HashMap<[u8; 16], ([u8; 16], Vec<Op>)>>,
+    abs_pairs: Mutex<Vec<(Vec<Op>, Vec<Op>)>>,
     seen: Vec<Mutex<HashSet<[u8; 16]>>>,
     next: Mutex<Vec<State>>,
     findings: Mutex<Vec<(Vec<Op>, Finding)>>,
@@ -1314,6 +1394,8 @@ pub fn run_hist(cfg: &HistCfg) -> HistResult
 {
     let shared = Arc::new(Shared
     {
+        abs_first: Mutex::new(HashMap::new()),
+        abs_pairs: Mutex::new(vec![]),
         seen: (0..64).map(|_| Mutex::new(HashSet::new())).collect(),
         next: Mutex::new(vec![]),
         findings: Mutex::new(vec![]),
@@ -1381,12 +1463,46 @@ pub fn run_hist(cfg: &HistCfg) -> HistResult
         }
         depth_completed = d;
         let next = std::mem::take(&mut *shared.next.lock().unwrap());
+        if let Ok(f) = std::env::var("RVF_DUMPKEYS")
+        {
+            use std::io::Write;
+            let mut lines: Vec<String> = next.iter().map(|s| format!("{} L{} {}", refsha::hex(&s.key_ordered(cfg.use_ghost_in_key, cfg.ordered_key)), d, ops_short(&s.path))).collect();
+            lines.sort();
+            if let Ok(mut fh) = std::fs::OpenOptions::new().create(true).append(true).open(&f) { for l in lines { let _ = writeln!(fh, "{}", l); } }
+        }
         levels.push(next.len() as u64);
         for s in next.iter().take(3)
         {
             if sample_paths.len() < 12 { sample_paths.push(s.path.clone()); }
         }
         frontier = next;
+    }
+    if std::env::var("RVF_ABSCHECK").is_ok()
+    {
+        let pairs = std::mem::take(&mut *shared.abs_pairs.lock().unwrap());
+        eprintln!("ABSCHECK {}: {} pairs of merged states with different timestamp order", cfg.scenario.name, pairs.len());
+        let mut shown = 0;
+        for (pa, pb) in pairs
+        {
+            let (_f, _x, sa) = replay_history(&cfg.scenario, cfg.clock, &cfg.oracles, cfg.paired, false, &pa);
+            let (_f, _x, sb) = replay_history(&cfg.scenario, cfg.clock, &cfg.oracles, cfg.paired, false, &pb);
+            let oa = enabled_ops(&cfg.scenario, &sa);
+            let ob = enabled_ops(&cfg.scenario, &sb);
+            if oa != ob { eprintln!("ABSCHECK enabled ops differ: [{}] vs [{}]", ops_short(&pa), ops_short(&pb)); continue; }
+            for op in oa
+            {
+                let mut a2 = pa.clone(); a2.push(op.clone());
+                let mut b2 = pb.clone(); b2.push(op.clone());
+                let (_f, _x, na) = replay_history(&cfg.scenario, cfg.clock, &cfg.oracles, cfg.paired, false, &a2);
+                let (_f, _x, nb) = replay_history(&cfg.scenario, cfg.clock, &cfg.oracles, cfg.paired, false, &b2);
+                if na.key_ordered(cfg.use_ghost_in_key, false) != nb.key_ordered(cfg.use_ghost_in_key, false) && shown < 3
+                {
+                    shown += 1;
+                    eprintln!("ABSCHECK successor differs after {}:\n  A [{}]\n  B [{}]\n  A' {:?}\n  B' {:?}", op.short(), ops_short(&pa), ops_short(&pb),
+                        crate::world::workspace_view(&na.fs), crate::world::workspace_view(&nb.fs));
+                }
+            }
+        }
     }
     let stats = shared.stats.lock().unwrap().clone();
     let findings = std::mem::take(&mut *shared.findings.lock().unwrap());
@@ -1496,6 +1612,17 @@ fn expand_worker(items: Arc<Vec<State>>, idx: Arc<AtomicUsize>, shared: Arc<Shar
                         {
                             *cur_op.borrow_mut() = oi;
                             let ns = apply(&ctx, st, op, &mut stats, &mut findings);
+                            if !ordered && std::env::var("RVF_ABSCHECK").is_ok()
+                            {
+                                let coarse = ns.key_ordered(use_ghost, false);
+                                let fine = ns.key_ordered(use_ghost, true);
+                                let mut m = shared.abs_first.lock().unwrap();
+                                match m.get(&coarse)
+                                {
+                                    Some((f0, p0)) => if *f0 != fine { let mut ap = shared.abs_pairs.lock().unwrap(); if ap.len() < 30000 { ap.push((p0.clone(), ns.path.clone())); } },
+                                    None => { m.insert(coarse, (fine, ns.path.clone())); },
+                                }
+                            }
                             if shared.insert(ns.key_ordered(use_ghost, ordered))
                             {
                                 shared.count.fetch_add(1, Ordering::SeqCst);
@@ -1533,6 +1660,19 @@ pub fn replay_history(sc: &Scenario, clock: ClockModel, or: &Oracles, paired: bo
         {
             // C10 probe ops are recorded as trailing Clean/Build ops: they replay as ordinary transitions
             st = apply(&ctx, &st, op, &mut stats, &mut findings);
+            if std::env::var("RVF_TRACE").is_ok()
+            {
+                let files: Vec<String> = st.fs.map.iter().filter_map(|(p, n)| if let crate::memsys::Node::File(f) = n { if p.starts_with(".ruler/history") || p == TABLE_FILE { None } else { Some(format!("{}={:?}@{}", p, show(&f.data), f.mtime)) } } else { None }).collect();
+                let table = crate::world::decode_table(&st.fs).map(|t| t.map(|m| m.iter().map(|(p, f)| format!("{}=({}..,{})", p, &refsha::encode62(&f.ticket.sha)[..6], f.timestamp)).collect::<Vec<_>>()));
+                println!("TRACE after {}: {}\n      table: {:?}", op.short(), files.join(" "), table);
+                println!("      keys: coarse {} fine {}", refsha::hex(&st.key_ordered(false, false)), refsha::hex(&st.key_ordered(false, true)));
+                if let Some(b) = &st.fs_b
+                {
+                    let files: Vec<String> = b.map.iter().filter_map(|(p, n)| if let crate::memsys::Node::File(f) = n { if p.starts_with(".ruler/history") || p == TABLE_FILE || p == "build.rules" { None } else { Some(format!("{}={:?}@{}", p, show(&f.data), f.mtime)) } } else { None }).collect();
+                    let table = crate::world::decode_table(b).map(|t| t.map(|m| m.iter().map(|(p, f)| format!("{}=({}..,{})", p, &refsha::encode62(&f.ticket.sha)[..6], f.timestamp)).collect::<Vec<_>>()));
+                    println!("      world B: {}\n      table B: {:?}", files.join(" "), table);
+                }
+            }
         }
         if c10
         {
